@@ -381,7 +381,21 @@ fn gen_wire_message(rng: &mut Rng) -> Vec<u8> {
     const ODD: [&[u8]; 22] = [
         b"%", b"%4", b"%zz", b"%4g", b"%g4", b"%%41", b"%25", b"%C3", b"%C3%A9", b"%c3%a9", b"%FF", b"%ED%A0%80", b"%F4%90%80%80", b"%C0%80", b"%E2%82", b"\xc3\xa9", b"\xc3", b"\xff", b"a b", b"a%20b%", b"%00", b"%e2%82%ac",
     ];
-    match rng.below(4) {
+    match rng.below(5) {
+        4 => {
+            // a peer that escapes as little as it can: `%` and what a header value cannot carry
+            let m = gen_message(rng);
+            let lower = rng.chance(1, 2);
+            let mut out = Vec::new();
+            for &b in m.as_bytes() {
+                if b == b'%' || !legal_value_byte(b) || (b >= 0x80 && rng.chance(1, 2)) {
+                    out.extend_from_slice(&pct_all(&[b], !lower));
+                } else {
+                    out.push(b);
+                }
+            }
+            out
+        }
         0 => ODD[rng.below(ODD.len() as u64) as usize].to_vec(),
         1 => {
             // what tonic would write
